@@ -17,7 +17,8 @@ EXPLANATION = (
     "Arc<[T]> is compared with Encode for Arc<U> at U=[T]). C12.b self-delimiting: every repetition in an Encode body is preceded by an emitted "
     "length (fixed-size arrays excepted) and every alternation on the value's own variant starts each arm with a distinct constant tag. C12.c the "
     "Postcard encoder and decoder (and the Encoder/Decoder default methods) use the same wire primitive for each of the 19 emit_X/read_X pairs. "
-    "Numeric correctness of LEB128/zig-zag and value equality after decoding are NOT decided.")
+    "C12.n in every container decoder the bound of the element loop IS the length read from the stream (no clamp, no arithmetic; BitVec's "
+    "bits-to-elements div_ceil excepted). Numeric correctness of LEB128/zig-zag and value equality after decoding are NOT decided.")
 
 NOT_DECIDED = [
     "an exhausted RangeInclusive (its private `exhausted` flag takes part in equality) is encoded as (start, end) and decodes to a fresh range; non-UTF-8 paths are rejected by Encode for Path",
@@ -692,6 +693,50 @@ def c12i(ctx, prog):
         ctx.fail(o, "(program)", "expected >= 100 Encode/Decode bodies, found %d" % n)
 
 
+def c12n(ctx, prog):
+    """A length-prefixed container's decoder repeats the element decoder exactly as often as the length it read says.  The
+    count that bounds the loop must BE the decoded length: a clamp (`len.min(cap)` meant for the pre-allocation), an
+    off-by-one or a saturating conversion applied to the loop bound decodes a prefix of the value and leaves the rest of
+    its bytes in the stream, where the next field is then decoded from."""
+    o = ctx.ob("C12.n", "containers/repetition-count-is-the-decoded-length", "K5",
+               "in every Decode impl that reads a length and loops over `0..n`, n originates from the read_usize call and nothing else")
+    n = 0
+    for b in prog.all_bodies(CRATES):
+        par = prog.bodies.get(b.parent) if b.parent else None
+        if b.rec.get("trait") != wire.DEC_TRAIT and not (par is not None and par.rec.get("trait") == wire.DEC_TRAIT):
+            continue
+        if not b.calls_to(r"read_usize$"):
+            continue
+        for s_ in b.aggregates(r"ops::range::Range$"):
+            ops = s_.node["rv"]["ops"]
+            if len(ops) != 2:
+                continue
+            ctx.touch(b)
+            n += 1
+            og = df.origins_of_operand(b, ops[1])
+            for x in og:
+                if x.kind == "call":
+                    path = x.site.node["fn"]["path"]
+                    if re.search(r"Decoder::read_usize$", path):
+                        continue
+                    if re.search(r"<impl usize>::div_ceil$", path) and "BitVec" in b.name and \
+                            all(y.kind != "call" or re.search(r"Decoder::read_usize$", y.site.node["fn"]["path"])
+                                for y in df.origins_of_operand(b, x.site.node["args"][0])) and \
+                            any(y.kind == "call" for y in df.origins_of_operand(b, x.site.node["args"][0])):
+                        continue  # the bit length converted to storage elements; C12.j decides the final truncate(len)
+                    what = "passes through `%s`" % path.rsplit("::", 1)[-1]
+                elif x.kind == "const":
+                    what = "is the constant %s" % x.info
+                else:
+                    what = "comes from %s" % x.kind
+                ctx.fail(o, s_, "%s: the bound of the element loop %s instead of being the length read from the stream: a value longer than that decodes to a "
+                         "prefix, and whatever follows it is decoded from the middle of its bytes" % (b.name, what))
+    o.sites = n
+    if not ctx.key_prefix and n < 14:
+        ctx.fail(o, "(program)", "expected >= 14 length-driven element loops in Decode impls (Box<[T]>, Arc, Rc, Vec, SmallVec, BitVec, VecDeque, LinkedList, "
+                 "HashMap, HashSet, BTreeMap, BTreeSet, DashMap, DashSet), found %d" % n)
+
+
 def run(ctx):
     prog = ctx.prog
     progs = [prog]
@@ -709,6 +754,7 @@ def run(ctx):
     ctx.run_clause("C12.k", lambda c: c12k(c, prog))
     ctx.run_clause("C12.l", lambda c: c12l(c, prog))
     ctx.run_clause("C12.m", lambda c: c12m(c, prog))
+    ctx.run_clause("C12.n", lambda c: c12n(c, prog))
     # the derive macros: their fixtures live in the serializer's unit-test module (unit/tuple/named structs, enums with
     # unit/tuple/struct variants, generics, #[serialize(skip)]); analysed, never run
     def fixtures(c):
